@@ -79,6 +79,15 @@ def one(arg):
         rec('MulticlassCarver.transform#post.class_columns_rebuilt_from_raw_columns', same, 'transform(transform(X)) differs from transform(X)')
     except Exception as e:
         rec('MulticlassCarver.transform#post.class_columns_rebuilt_from_raw_columns', False, 'transform of an already transformed frame raised %s: %s' % (type(e).__name__, str(e)[:120]))
+    # the object rebuilt from its JSON export builds the same class columns from the raw ones
+    try:
+        import json as _json
+        from AutoCarver.carvers.base_carver import load_carver
+        re_ = load_carver(_json.loads(_json.dumps(mc.to_json()))); out_re = re_.transform(X)
+        same = list(out_re.columns) == list(out.columns) and all(series_list(out_re[c_]) == series_list(out[c_]) for c_ in out.columns)
+        rec('MulticlassCarver.transform#post.class_columns_rebuilt_from_raw_columns', same, 'the carver reloaded from JSON transforms X differently (columns %r vs %r)' % (list(out_re.columns)[:8], list(out.columns)[:8]), dict(reloaded=True))
+    except Exception as e:
+        rec('MulticlassCarver.transform#post.class_columns_rebuilt_from_raw_columns', False, 'the carver reloaded from JSON: %s: %s' % (type(e).__name__, str(e)[:150]), dict(reloaded=True))
     classes = sorted(str(c) for c in pd.unique(y))[1:]
     raw = ob.features_of(case)
     for f in raw:
